@@ -73,20 +73,16 @@ Proof.
   assert (E : x * y == (- x) * (- y)) by ring. rewrite E. apply Qmult_le_0_compat; lra.
 Qed.
 
-(* solveQuadraticEdge returns a maximiser of g t - Q/2 t^2 over the whole interval
-   (curvature not in the dead zone (0, 1e-12)); the start point a need not be feasible *)
-Lemma solve_edge_optimal : forall a g Q L U, L <= U -> (qthr <= Q \/ Q == 0) ->
+(* solveQuadraticEdge (degenerate test `Q <= 0` since the repair of /repo) returns a maximiser of
+   g t - Q/2 t^2 over the whole interval for every curvature Q >= 0; the start point a need not be
+   feasible (the multi-class solvers call it with L = 0 and a possibly clipped start) *)
+Lemma edge_optimal_any_start : forall a g Q L U, L <= U -> 0 <= Q ->
   forall b, L <= b -> b <= U ->
   gain1 g Q (b - a) <= gain1 g Q (solve_edge qops a g Q L U - a).
 Proof.
-  intros a g Q L U LU HQ b Lb bU. pose proof qthr_pos as TP.
+  intros a g Q L U LU HQ b Lb bU.
   unfold solve_edge, maxA, minA. cbn [o_ltb o_thr o_zero o_add o_div qops].
-  qcase Q qthr.
-  - assert (Q0 : Q == 0) by (destruct HQ; [lra | assumption]).
-    unfold gain1. rewrite Q0.
-    qcase 0 g.
-    + assert (0 <= (U - b) * g) by (apply Qmult_le_0_compat; lra). lra.
-    + assert (0 <= (b - L) * (- g)) by (apply Qmult_le_0_compat; lra). lra.
+  qcase 0 Q; cbn [negb].
   - assert (Qp : 0 < Q) by lra.
     assert (Hs : g == (g / Q) * Q) by (field; lra).
     set (s := g / Q) in *.
@@ -105,6 +101,11 @@ Proof.
                 - ((b - a) * (s * Q) - (1 # 2) * Q * (b - a) * (b - a))
                 == Q * (((r - a) - (b - a)) * (s - ((b - a) + (r - a)) * (1#2)))) by ring.
     lra.
+  - assert (Q0 : Q == 0) by lra.
+    unfold gain1. rewrite Q0.
+    qcase 0 g.
+    + assert (0 <= (U - b) * g) by (apply Qmult_le_0_compat; lra). lra.
+    + assert (0 <= (b - L) * (- g)) by (apply Qmult_le_0_compat; lra). lra.
 Qed.
 
 (* ------------------------------------------------------------ gain of the triangle step *)
@@ -129,9 +130,9 @@ Lemma G_current : G (ai, aj) == 0.
 Proof. unfold G, G2. cbn [fst snd]. rewrite gain2_q. ring. Qed.
 
 Hypothesis HM : 0 <= M.
-Hypothesis Hjj : qthr <= Qjj \/ Qjj == 0.
-Hypothesis Hii : qthr <= Qii \/ Qii == 0.
-Hypothesis HD : qthr <= D \/ D == 0.
+Hypothesis Hjj : 0 <= Qjj.
+Hypothesis Hii : 0 <= Qii.
+Hypothesis HD : 0 <= D.
 
 (* every boundary point is dominated by the candidate of its edge *)
 Lemma tri_candidates_dominate_boundary : forall y, onb y -> exists c, In c es /\ G y <= G c.
@@ -140,7 +141,7 @@ Proof.
   - set (e0 := solve_edge qops aj (gj + Qij * ai) Qjj 0 M).
     exists (0, e0). split; [left; reflexivity|].
     rewrite (G_compat x y 0 y E (Qeq_refl _)).
-    pose proof (solve_edge_optimal aj (gj + Qij * ai) Qjj 0 M HM Hjj y L U) as OP. fold e0 in OP.
+    pose proof (edge_optimal_any_start aj (gj + Qij * ai) Qjj 0 M HM Hjj y L U) as OP. fold e0 in OP.
     assert (X : G (0, y) - G (0, e0) ==
                 gain1 (gj + Qij * ai) Qjj (y - aj) - gain1 (gj + Qij * ai) Qjj (e0 - aj)).
     { unfold G, G2. cbn [fst snd]. rewrite !gain2_q. unfold gain1. ring. }
@@ -148,7 +149,7 @@ Proof.
   - set (e1 := solve_edge qops ai (gi + Qij * aj) Qii 0 M).
     exists (e1, 0). split; [right; left; reflexivity|].
     rewrite (G_compat x y x 0 (Qeq_refl _) E).
-    pose proof (solve_edge_optimal ai (gi + Qij * aj) Qii 0 M HM Hii x L U) as OP. fold e1 in OP.
+    pose proof (edge_optimal_any_start ai (gi + Qij * aj) Qii 0 M HM Hii x L U) as OP. fold e1 in OP.
     assert (X : G (x, 0) - G (e1, 0) ==
                 gain1 (gi + Qij * aj) Qii (x - ai) - gain1 (gi + Qij * aj) Qii (e1 - ai)).
     { unfold G, G2. cbn [fst snd]. rewrite !gain2_q. unfold gain1. ring. }
@@ -159,7 +160,7 @@ Proof.
     exists (M - e2, e2). split; [right; right; left; reflexivity|].
     assert (Ex : x == M - y) by lra.
     rewrite (G_compat x y (M - y) y Ex (Qeq_refl _)).
-    pose proof (solve_edge_optimal 0 (ggj - ggi) (Qii + Qjj - 2 * Qij) 0 M HM HD y L U) as OP.
+    pose proof (edge_optimal_any_start 0 (ggj - ggi) (Qii + Qjj - 2 * Qij) 0 M HM HD y L U) as OP.
     fold e2 in OP.
     assert (X : G (M - y, y) - G (M - e2, e2) ==
                 gain1 (ggj - ggi) (Qii + Qjj - 2 * Qij) (y - 0)
@@ -212,7 +213,7 @@ Qed.
 
 (* The triangle step (before snapping) does not lose objective when
      - the unconstrained optimum is returned (needs 0 <= Qii besides det > 1e-12), or
-     - the three edge curvatures Qii, Qjj, Qii+Qjj-2Qij avoid the dead zone (0,1e-12) and some
+     - the three edge curvatures Qii, Qjj, Qii+Qjj-2Qij are non-negative and some
        boundary point of the triangle has gain >= 0 - in particular when the current point itself
        lies on the boundary.
    FULL STATEMENT (not proved): for every current point in the triangle and positive semidefinite Q
@@ -225,8 +226,7 @@ Theorem tri_gain_nonneg_partial : forall ai aj gi gj Qii Qij Qjj M,
   0 <= M ->
   (tri_is_free ai aj gi gj Qii Qij Qjj M -> 0 <= Qii) ->
   (tri_is_free ai aj gi gj Qii Qij Qjj M \/
-   ((qthr <= Qjj \/ Qjj == 0) /\ (qthr <= Qii \/ Qii == 0) /\
-    (qthr <= Qii + Qjj - 2 * Qij \/ Qii + Qjj - 2 * Qij == 0) /\
+   (0 <= Qjj /\ 0 <= Qii /\ 0 <= Qii + Qjj - 2 * Qij /\
     (onb M (ai, aj) \/ exists y, onb M y /\ 0 <= G y))) ->
   0 <= G r.
 Proof.
@@ -255,8 +255,8 @@ Qed.
 (* hypotheses are satisfiable: an interior free optimum, and a current point on the edge ai = 0 *)
 Example tri_partial_free_sat : tri_is_free (1#1) (1#1) 1 1 1 0 1 10 /\ 0 <= 1.
 Proof. split; vm_compute; [reflexivity|discriminate]. Qed.
-Example tri_partial_boundary_sat : onb 10 (0, 1) /\ (qthr <= 1 \/ 1 == 0).
-Proof. split; [left; cbn [fst snd]; repeat split; try reflexivity; vm_compute; discriminate | left; vm_compute; discriminate]. Qed.
+Example tri_partial_boundary_sat : onb 10 (0, 1) /\ 0 <= 1.
+Proof. split; [left; cbn [fst snd]; repeat split; try reflexivity; vm_compute; discriminate | vm_compute; discriminate]. Qed.
 
 (* Counterexample to unconditional monotonicity (finding F3 seen through the triangle solver):
    Q positive definite with determinant exactly 1e-12 (not > 1e-12), current point (1,1) strictly
